@@ -591,6 +591,10 @@ def _check(mod, prop_id: str, tier: str, seed: int, t0: float) -> int:
         cov["leanchecker"] = checker_note
     if hasattr(mod, "extra_coverage"):
         cov.update(mod.extra_coverage(stats))
+    # keys the evidence schema types: free text given under one of them is kept under <key>_note instead
+    for k, typ in (("exhaustive", bool), ("states", int), ("transitions", int), ("programs", int), ("explanation", str)):
+        if k in cov and not isinstance(cov[k], typ):
+            cov[k + "_note"] = cov.pop(k)
     ev = {
         "property_id": prop_id,
         "tier": tier,
